@@ -260,7 +260,7 @@ def c15_driver(a, col):
         rng = np.random.default_rng([a.seed, pidx, a.shard, prog])
         prog += 1
         nsteps = int(rng.integers(5, 12))
-        opts = {"approx_ops": False, "weights": {"config": 0, "measure": 0.3, "povm": 0.2, "kraus": 0.5, "apply1": 8, "applyc": 4,
+        opts = {"approx_ops": False, "op_reuse": 0.45, "weights": {"config": 0, "measure": 0.3, "povm": 0.2, "kraus": 0.5, "apply1": 8, "applyc": 6,
                                                    "resize": 1.0, "combine": 1.0}}
         try:
             decl, steps, A = gen_program(rng, "ops", a.tier, opts, bool(rng.random() < 0.5), nsteps, op_reuse=True)
